@@ -21,6 +21,13 @@ def queries(ctx):
     for p0 in range(NP):
         for p1 in range(p0, NP):
             qs.append(tc.tq("rg_ev_%d_%d" % (p0, p1), 2, evp=(p0, p1), timeout=300))
+    # record formatting interleaved with another thread's formatting (sequentialised at the data-source call): no shared scratch state
+    import dataclasses, importlib
+    c05 = importlib.import_module("props.C05")
+    for q in c05.queries(dict(ctx, kf=[])):
+        if q.name in ("sym_F5_L12_D1", "sym_F5_L6_D2"):
+            qs.append(dataclasses.replace(q, name="interleaved_format_" + q.name[:12], defines=tuple(q.defines) + ("CONCURRENT=1",),
+                                          bounds=q.bounds + "; another thread's complete formatting call runs inside every data-source call of this thread"))
     if thorough:
         for p0 in range(0, 2 * NP, 2):
             for p1 in range(p0, 2 * NP, 3):
